@@ -270,6 +270,20 @@ func runC01(c *explore.Ctx) {
 			checkBuiltLarge(c, scope, my, batch, m, fmt.Sprintf("MANYTERMS terms=%d %s", nt, modeStr(m)))
 		}
 	}
+	// EXTREME: fixed batches with extreme values (huge frequencies and location numbers, long terms
+	// and values, thousands of terms / locations / instances)
+	{
+		var ei int64
+		for _, e := range gen.Extremes() {
+			for _, m := range []uint32{1025, 1024, 1, 3} {
+				my := ei
+				ei++
+				if c.MineIdx("EXTREME", my) && !c.Expired() {
+					checkBuiltLarge(c, "EXTREME", my, e.Batch, m, fmt.Sprintf("EXTREME %s %s", e.Name, modeStr(m)))
+				}
+			}
+		}
+	}
 	// LARGE: the only way to make the adaptive mode multi-chunk
 	largeModes := []uint32{1025, 1024}
 	sizes := []int{1023, 1024, 1025, 2049}
